@@ -67,7 +67,8 @@ def _mk(kind, H, V):
     if kind == "ConvexPolyhedron":
         return S.ConvexPolyhedron(placed(SH.CONVEX["wedge"], "r2"))
     if kind == "ConvexSpheropolyhedron":
-        return S.ConvexSpheropolyhedron(placed(SH.CONVEX["box"], "id"), H.num(F(1, 2)))
+        # a core whose vertex mean differs from its centroid (a box would hide any confusion of the two)
+        return S.ConvexSpheropolyhedron(placed(SH.CONVEX["pyramid"], "id"), H.num(F(1, 2)))
     raise KeyError(kind)
 
 
